@@ -704,6 +704,20 @@ func c02wIsWrite(letter string) bool { return c02wWriteIndex(strings.TrimSuffix(
 
 var c02wDirSeq int
 
+// c02wWalFiles lists the WAL files of the shard. The WAL creates a file at the first write after a switch and a flush
+// removes every file it switched away from, so while the memtable is empty no WAL file exists.
+func c02wWalFiles(dir string) []string {
+	var out []string
+	_ = filepath.Walk(filepath.Join(dir, "wal"), func(p string, info os.FileInfo, err error) error {
+		if err == nil && !info.IsDir() && strings.HasSuffix(p, ".wal") {
+			rel, _ := filepath.Rel(dir, p)
+			out = append(out, fmt.Sprintf("%s:%d", rel, info.Size()))
+		}
+		return nil
+	})
+	return out
+}
+
 // c02wListFiles lists the files below the shard's data directory (name:size), for the detail of a violation.
 func c02wListFiles(dir string) string {
 	var out []string
@@ -749,10 +763,17 @@ func c02wRunHistory(rep *kit.Report, parent string, c c02wCase, fullFrom int, st
 	c.Knobs.apply()
 	c02wInstallTap()
 	lastNames := ""
+	staleWal := ""     // WAL files seen while the memtable was empty (see fail)
 	splitPath := false // the step under way is a streaming compaction that has to split a chunk (see c02wLayout.SeriesSegs)
 	fail := func(n int, kind, detail string) c02wEnd {
 		cc := c02wCase{Wide: true, Knobs: c.Knobs, Ops: append([]string(nil), c.Ops[:n]...)}
-		if splitPath && strings.HasPrefix(kind, "wide_") {
+		if staleWal != "" && strings.HasPrefix(kind, "wide_") && kind != "wide_stale_wal_file" {
+			// a WAL file that a completed flush should have removed is still there (WAL.Switch can return before the
+			// writer of the last partition has handed over its file names: a race, so not reproducible at will); its rows
+			// are replayed by the next open as if they were the newest writes
+			kind = "wide_stale_wal_replay_" + strings.TrimPrefix(kind, "wide_")
+			detail += " [WAL files left behind by an earlier flush: " + staleWal + "]"
+		} else if splitPath && strings.HasPrefix(kind, "wide_") {
 			// one defect family with its own kinds: the split-chunk path of StreamIterators.compactColumn
 			kind = "wide_split_chunk_" + strings.TrimPrefix(kind, "wide_")
 		}
@@ -806,6 +827,15 @@ func c02wRunHistory(rep *kit.Report, parent string, c c02wCase, fullFrom int, st
 			return fail(i+1, "wide_layout_error", err.Error())
 		}
 		prev = lay
+		if !lay.Mem && op != "RO" && staleWal == "" {
+			if wf := c02wWalFiles(dir); len(wf) > 0 {
+				staleWal = strings.Join(wf, " ")
+				if stats {
+					rep.Count("wide_stale_wal_files_seen", 1)
+					rep.Note("WAL file left behind by a completed flush (memtable empty): %s after %s", staleWal, c.key(i+1))
+				}
+			}
+		}
 		if len(lay.PreAgg) > 0 {
 			return fail(i+1, "wide_preagg_mismatch", fmt.Sprintf("after %s: %s (layout %s)", op, strings.Join(lay.PreAgg, "; "), lay.Shape))
 		}
@@ -916,7 +946,10 @@ func c02wExplore(rep *kit.Report, scratch string, p c02wPlan) {
 		if e.vio != nil {
 			// determinism: the failing history is run again, compared in full at every letter
 			e2 := c02wRunHistory(rep, dir, e.vio.replay, 0, false)
-			if e2.vio == nil || e2.vio.kind != e.vio.kind {
+			if strings.HasPrefix(e.vio.kind, "wide_stale_wal_replay_") {
+				// the cause is a race of the product (see fail): reported as observed, the second run is not a criterion
+				rep.Violation(e.vio.kind, e.vio.key, e.vio.detail, e.vio.replay)
+			} else if e2.vio == nil || e2.vio.kind != e.vio.kind {
 				second := "no violation"
 				if e2.vio != nil {
 					second = e2.vio.kind + " at " + e2.vio.key + ": " + e2.vio.detail
